@@ -286,3 +286,20 @@ Definition col_compress (c : column) (took : option ckind) : column :=
          col_comp := Some (sort_by_id (filter (fun kv => is_kind k (snd kv)) (col_hot c))) |}
   | _, _ => c
   end.
+
+(** mutations of a column and their reference (plain map) semantics — compression is invisible *)
+Inductive cmut := MSet (id : Z) (v : pval) | MRemove (id : Z) | MCompress (took : option ckind) | MDecompress.
+Definition col_apply (c : column) (m : cmut) : column :=
+  match m with
+  | MSet id v => col_set c id v
+  | MRemove id => fst (col_remove c id)
+  | MCompress t => col_compress c t
+  | MDecompress => col_decompress c
+  end.
+Definition ref_apply (r : list (Z * pval)) (m : cmut) : list (Z * pval) :=
+  match m with
+  | MSet id v => (id, v) :: assoc_remove id r
+  | MRemove id => assoc_remove id r
+  | MCompress _ => r
+  | MDecompress => r
+  end.
